@@ -150,6 +150,7 @@ func (vc *FuncVC) execBlock(b *ssa.BasicBlock) {
 					// v, ok := x.(T) for string, []byte, int64: ok iff the dynamic type is T (a tag on the interface value),
 					// and then v is what the interface holds
 					vc.ifaceDecls()
+					vc.modelNote("type-switch")
 					x := vc.scalar(ins.X)
 					okT := Eq(app(SInt, "uf_iftype", x), IntLit(tag))
 					var v *Val
